@@ -65,6 +65,17 @@ func (x *FnExec) call(in ssa.Instruction, c *ssa.CallCommon, st *State) (Val, bo
 	}
 	callee = c.StaticCallee()
 	if callee == nil {
+		// package-level function variable initialised once with a function (e.g. osmomath.MinDec)
+		if u, ok := c.Value.(*ssa.UnOp); ok {
+			if g, ok := u.X.(*ssa.Global); ok {
+				if f := x.eng.globalFuncInit(g); f != nil {
+					callee = f
+					x.ctx.Note(fmt.Sprintf("call through package variable %s resolved to %s (assumes the variable is never reassigned)", g.Name(), shortName(f.String())))
+				}
+			}
+		}
+	}
+	if callee == nil {
 		// call of a function value
 		if mc, ok := c.Value.(*ssa.MakeClosure); ok {
 			callee = mc.Fn.(*ssa.Function)
@@ -226,7 +237,11 @@ func (x *FnExec) applyContractSig(in ssa.Instruction, con *Contract, calleeName 
 		x.panicIf(st, p, "callee "+short+" panics")
 	} else if con.MayPanic {
 		pb := x.ctx.Fresh("panics", SBool)
-		x.panicIf(st, pb, "callee "+short+" may panic")
+		var must []Term
+		for _, pi := range con.PanicsIf {
+			must = append(must, envPre.EvalBool(pi.E))
+		}
+		x.panicIf(st, Or(pb, Or(must...)), "callee "+short+" may panic")
 	}
 	// 3. havoc
 	if con.ModAll {
